@@ -203,8 +203,65 @@ def coq_row(i, c, r):
     return "(%d, %s, [%s], %s)" % (i, cres, "; ".join(items), exp)
 
 
+def raw_family(res, tier, rnd):
+    """batches that do not come fresh out of tea.Batch: a BatchMsg literal with nil entries (sent, and returned by a
+    command, also nested), and one stored Batch command handed out by several Updates: every non-nil entry runs once per
+    dispatch, its result arrives once per run, the program lives on"""
+    okb, out = C.build_harness()
+    if not okb:
+        raise C.Fail("harness build failed (does /repo still compile with -tags verif?):\n" + out[-3000:])
+    scs, metas = [], []
+    for i in range(8 if tier == "quick" else 120):
+        kind = ["raw-send", "raw-from-cmd", "raw-nested", "stored"][i % 4]
+        ids = [200 + 10 * i + k for k in range(rnd.choice([2, 3, 5]))]
+        leaves = [P.cmd(j, ret=P.U(6000 + j)) for j in ids]
+        upd, script, times = {}, [P.W("started"), P.W("idle")], 1
+        if kind == "raw-send":
+            entries = [None] + leaves[:1] + [None] + leaves[1:] + [None]
+            script += [P.DO("send", msg=P.B("batch", cmds=entries))]
+        elif kind == "raw-from-cmd":
+            entries = leaves[:1] + [None] + leaves[1:]
+            upd["u:1"] = {"cmd": P.cmd(199, ret=P.B("batch", cmds=entries))}
+            script += [P.DO("send", msg=P.U(1))]
+        elif kind == "raw-nested":
+            inner = P.cmd(198, ret=P.B("batch", cmds=[None] + leaves[1:]))
+            upd["u:1"] = {"cmd": {"id": 0, "batch": [leaves[0], inner]}}
+            script += [P.DO("send", msg=P.U(1))]
+        else:
+            times = rnd.choice([2, 3])
+            stored = {"id": 0, "batch": leaves, "cache": True}
+            upd["u:1"] = {"cmd": stored}           # one command value (the harness caches per Update entry), returned `times` times
+            for k in range(times):
+                script += [P.DO("send", msg=P.U(1)), P.DO("sleep", us=4000), P.W("idle")]
+        script += [P.DO("sleep", us=6000), P.W("idle"), P.DO("sleep", us=3000), P.W("idle"), P.DO("quit"), P.W("returned")]
+        scs.append(P.scenario(i, script, opts={"fps": 120}, update=upd, parallel_ok=True, watchdog_ms=4000))
+        metas.append({"kind": kind, "ids": ids, "times": times})
+    results, _ = P.run_scenarios("C02_raw", scs, timeout=900)
+    bad = []
+    for i, (m, r) in enumerate(zip(metas, results)):
+        if P.machinery_problem(r) or not r["run_returned"]:
+            bad.append((i, "scenario did not complete: %s" % P.summarize(r)))
+            continue
+        if r["run_err"] != "nil":
+            bad.append((i, "%s: Run ended with %s" % (m["kind"], r["run_err"])))
+            continue
+        evs = r["events"]
+        for j in m["ids"]:
+            ns = sum(1 for e in evs if e["ev"] == "CmdStart" and e["id"] == j)
+            nr = sum(1 for e in evs if e["ev"] == "UpdateBegin" and e.get("key") == "u:%d" % (6000 + j))
+            if ns != m["times"] or nr != m["times"]:
+                bad.append((i, "%s: command %d of the batch was run %d times and its result delivered %d times; the batch was dispatched %d times" % (m["kind"], j, ns, nr, m["times"])))
+                break
+    res.oblige("Spec on real runs: BatchMsg literals with nil entries (sent / returned by a command / nested) and a stored Batch command dispatched 2-3 times: every entry runs and delivers once per dispatch (%d runs)" % len(scs),
+               not bad, [b[1] for b in bad[:2]])
+    for i, what in bad[:1]:
+        res.violation("C02:raw-batch", what, {"scenario": scs[i], "meta": metas[i]})
+    res.coverage["raw_batch_family"] = len(scs)
+
+
 def run(res, tier, seed):
     rnd = random.Random(seed * 7919 + 2)
+    raw_family(res, tier, random.Random(seed * 7919 + 22))
     have_props = os.path.exists(os.path.join(C.COQ, "theories", "Props", "C02.v"))
     proofs_ok, broken = C.proof_obligations(res, PROPS if have_props else [], extra_targets=["theories/Spec/ConcSpec.vo"])
     if not have_props:
@@ -250,7 +307,7 @@ def run(res, tier, seed):
             res.violation("C02:log", "the command log of a real run violates started_once / results_once / invoked-equals-returned",
                           {"case": cases[i], "events": [(e["ev"], e.get("id"), e.get("key")) for e in results[i]["events"] if e["ev"] in ("CmdStart", "CmdEnd", "UpdateBegin")]})
             found = True
-    if not found and (not proofs_ok or not tie_ok):
+    if not found and not res.violations and (not proofs_ok or not tie_ok):
         res.violation("C02:obligation", "proof obligation or tie no longer checks (%s); the Spec held on all %d real logs" % (broken, len(cases)),
                       {"broken": broken, "searched": "%d runs" % len(cases)}, found_input=False)
     nleaves = [len(expected_leaves(c)) for c in cases]
